@@ -5,7 +5,6 @@ package main
 import (
 	"fmt"
 	"go/ast"
-	"go/token"
 	"go/types"
 
 	"golang.org/x/tools/go/cfg"
@@ -537,15 +536,23 @@ func c20e(c *Ctx) {
 	found := false
 	ast.Inspect(f.Body, func(n ast.Node) bool {
 		be, ok := n.(*ast.BinaryExpr)
-		if !ok || be.Op != token.GTR {
+		if !ok {
 			return true
 		}
-		call, ok := ast.Unparen(be.X).(*ast.CallExpr)
-		if !ok || !matchCallee(info, call, Callee{"time", "", "Since"}) {
-			return true
+		var v int64
+		isSince := func(e ast.Expr) bool {
+			call, ok := ast.Unparen(e).(*ast.CallExpr)
+			return ok && matchCallee(info, call, Callee{"time", "", "Since"})
 		}
-		v, ok := constInt(info, be.Y)
-		if !ok || v < int64(24*3600*1e9) {
+		isBig := func(e ast.Expr) bool {
+			x, ok := constInt(info, e)
+			if ok && x >= int64(24*3600*1e9) {
+				v = x
+				return true
+			}
+			return false
+		}
+		if rel, isCmp := cmpRel(Atom{be, true}, isSince, isBig); !isCmp || rel != relGT {
 			return true
 		}
 		found = true
